@@ -27,6 +27,19 @@ impl<W> writer_::Writer<W> {
     }
 }
 
+/// what ONE successful `write_event` does: the contract of Writer::write_event as a relation between the writer before and
+/// after (used to say what the element builder writes: a sequence of such steps)
+pub open(crate) spec fn wrote<'a, W: Write>(w0: writer_::Writer<W>, e: Event<'a>, w1: writer_::Writer<W>) -> bool {
+    &&& w1.writer.out() == w0.writer.out() + w0.pre(e) + render(e)
+    &&& w0.indent is None ==> w1.indent is None
+    &&& w0.indent matches Some(i0) ==> (w1.indent matches Some(i1)
+        && i1.inv() && i1.indent_char == i0.indent_char && i1.indent_size == i0.indent_size
+        && i1.should_line_break == !(e is Text || e is CData)
+        && i1.current_indent_len as int == (if e is Start { i0.current_indent_len + i0.indent_size }
+              else if e is End { if i0.current_indent_len >= i0.indent_size { i0.current_indent_len - i0.indent_size } else { 0int } }
+              else { i0.current_indent_len as int }))
+}
+
 /// `k` is the index of the '>' of a "]]>" in `s`
 pub open spec fn cdata_close_at(s: Seq<u8>, k: int) -> bool {
     2 <= k < s.len() && s[k] == 0x3e && s[k - 1] == 0x5d && s[k - 2] == 0x5d
